@@ -134,6 +134,7 @@ class Sched:
         self.trace_files = tuple(trace_files)
         self.timeouts_fired = 0
         self.trace = []          # (thread name, label it proceeds past)
+        self.on_timeout = None   # callable(thread, event) when a wait times out
 
     # -- used by scenario code ---------------------------------------------
     def spawn(self, target, *args, name=None, **kwargs):
@@ -228,6 +229,8 @@ class Sched:
                 t.wake_reason = 'timeout'
                 t.state = 'runnable'
                 t.blocked_on[1].fired += 1
+                if self.on_timeout:
+                    self.on_timeout(t, t.blocked_on[1])
                 self.timeouts_fired += 1
             elif t.state == 'blocked':
                 t.state = 'runnable'
